@@ -78,7 +78,7 @@ PROPERTIES = {
                        "stack shrinks only at the three closing sites (exhausted known-size masters drained innermost-first before the next header, "
                        "unknown-size masters popped in a loop decided by is_ended_by, everything closed innermost-first at end of input under the "
                        "EOF switch); the overrun test scans every ancestor; the hierarchy matcher is the single shared one; in strict mode no "
-                       "corruption kind is tolerated (R-TOL-STRICT: row mask 0 of the tolerance table); the matcher's class table (R-MATCHER-TABLE) and "
+                       "corruption kind is tolerated (R-TOL-STRICT: row mask 0 of the tolerance table); the matcher's class table read for the classes whose prescribed answer is 'reject' (R-MATCHER-TABLE: a wrongly rejected chain is an error, not an invalid emitted sequence), every master removed from the stack reaches the emission queue on every path to the return of read_next (R-CLOSE-EMITS), and "
                        "that only unknown-size masters are ever closed by an element (R-CLOSE-UNKNOWN-ONLY).  Not decided: well-nestedness of the "
                        "emitted sequence as such.",
     },
@@ -117,16 +117,15 @@ PROPERTIES = {
                        "form, options) class: the matcher is consulted before the first state mutation exactly for specified non-End tags, and a "
                        "negative answer yields UnexpectedTag with no mutation; the matcher itself decided per class of (declared path, chain of open "
                        "known-size masters) by abstract interpretation — exact chain, root with/without open masters, deeper, shallower, wrong parent, "
-                       "wrong order, trailing and intermediate placeholders at, within and beyond their bounds, global elements, with chain tails of "
+                       "wrong order, trailing and intermediate placeholders at, within and beyond their bounds, two placeholders separated by a named parent (each within / below / beyond its own bounds), a placeholder matching a master that carries the id of the following named parent (today's matcher is greedy and rejects that chain: a genuine defect listed in known_findings.json), global elements, with chain tails of "
                        "arbitrary length where the class allows — and the closing-predicate shortcut is taken for unknown-size masters only.  Not "
-                       "decided: paths/chains outside these classes (e.g. a placeholder followed by a named parent that also occurs inside the "
-                       "placeholder's span), and the reader/writer agreement beyond their sharing the one matcher.",
+                       "decided: paths/chains outside these classes, and the reader/writer agreement beyond their sharing the one matcher.",
     },
     "C09": {
         "rules": ["R-FULL-EQ", "R-DEPRECATED-EQ", "R-WIDTH-TABLE", "R-DEST-OWNER", "R-FLUSH-GUARD"],
         "level": "other",
         "explanation": "Sibling-region comparison (Full arm vs Start/End arms), equal action traces of the deprecated and option-based unknown-size "
-                       "entries, the width dispatch tables read off resolved const-generic instantiations per width class, and write_all-only "
+                       "entries, the width dispatch tables read off resolved const-generic instantiations per width class (masters: dispatch, stored width, width used by end_tag; elements of every data type and raw ids: with a width k only fixed-width size encoders instantiated with k are reached), and write_all-only "
                        "delivery, and the flush guard (nothing is delivered while a known-size master still waits for its size, so bytes reach the destination "
                        "in presentation-independent order).  Byte equality of two presentations as such is not decided.",
     },
